@@ -624,3 +624,110 @@ Lemma ex_required_break_waiting :
   valid4 ex_Xw XS0 ex_Pw ex_Sw = [] /\ valid4 ex_Xw XS0 ex_Pw ex_Sw_twice = [RStatWaiting 0; RStatCost 0]
   /\ 20 + 5 + 20 + 5 <> 45.
 Proof. split; [vm_compute; reflexivity|]. split; [vm_compute; reflexivity|discriminate]. Qed.
+
+
+(* ================================================================== 3. vicinity clustering *)
+Lemma member_viol_nil P X xt k t : member_viol P X xt k t = [] <-> ClusterMembersOk P X xt t.
+Proof.
+  unfold member_viol, ClusterMembersOk. rewrite flat_map_nil_iff. split.
+  - intros H it Hit Hc. specialize (H it Hit). destruct (snd (snd it)) as [c|]; [|congruence]. cbn [some_b andb] in H.
+    destruct (clusterable P (xp_cluster X) (fst (snd it))); [reflexivity|discriminate].
+  - intros H it Hit. destruct (snd (snd it)) as [c|] eqn:E; [|reflexivity]. cbn [some_b andb].
+    rewrite (H it Hit); [reflexivity|]. rewrite E. discriminate.
+Qed.
+
+Lemma member_viols_nil P X XS S :
+  member_viols P X XS S = [] <-> forall n t, nth_error (sl_tours S) n = Some t -> ClusterMembersOk P X (xt_of XS (Z.of_nat n)) t.
+Proof.
+  unfold member_viols. rewrite mapi_nil_iff. split.
+  - intros H n t Hn. apply (member_viol_nil P X _ (Z.of_nat n)). apply H. exact Hn.
+  - intros H n t Hn. apply member_viol_nil. apply H. exact Hn.
+Qed.
+
+Lemma window_viol_nil k r : window_viol k r = [] <-> WindowsKept r.
+Proof.
+  unfold window_viol, WindowsKept. rewrite mapi_nil_iff. split.
+  - intros H am Hin Hk. apply In_nth_error in Hin. destruct Hin as [n Hn]. specialize (H n am Hn). cbv beta in H.
+    rewrite Hk in H. cbn [andb] in H. destruct (window_ok (snd (snd am)) (fst am)); [reflexivity|discriminate].
+  - intros H n am Hn. destruct (is_job_kind (fa_kind (fst am))) eqn:Hk; [|reflexivity]. cbn [andb].
+    rewrite (H am (nth_error_In _ _ Hn) Hk). reflexivity.
+Qed.
+
+Lemma threshold_viol_nil P X c xt k t : xp_cluster X = Some c ->
+  (threshold_viol P X xt k t = [] <-> WithinThreshold P c xt t).
+Proof.
+  intros Hc. unfold threshold_viol, WithinThreshold. rewrite Hc, flat_map_nil_iff. split.
+  - intros H it Hit Hs. cbv zeta. intros Hloc. specialize (H it Hit). cbv zeta in H.
+    destruct (snd (snd it)) as [cm|]; [|congruence]. cbn [some_b andb] in H.
+    apply Z.eqb_neq in Hloc. rewrite Hloc in H. cbn [negb andb] in H.
+    destruct (near P c _ (fa_loc (fst (snd it)))); [reflexivity|discriminate].
+  - intros H it Hit. cbv zeta. destruct (snd (snd it)) as [cm|] eqn:E; [|reflexivity]. cbn [some_b andb].
+    destruct (fa_loc (fst (snd it)) =? _) eqn:Hloc; [reflexivity|]. cbn [negb andb].
+    assert (Hs : snd (snd it) <> None) by (rewrite E; discriminate).
+    specialize (H it Hit Hs). cbv zeta in H. apply Z.eqb_neq in Hloc. rewrite (H Hloc). reflexivity.
+Qed.
+
+Lemma outer_from_nil P k : forall stops a s,
+  outer_from P k s (ss_loc a) (ss_dep a) (ss_dist a) stops = [] <->
+  (forall l1 x y l2, a :: stops = l1 ++ x :: y :: l2 ->
+     ss_arr y = ss_dep x + pdur P (ss_loc x) (ss_loc y) /\ ss_dist y = ss_dist x + pdist P (ss_loc x) (ss_loc y)).
+Proof.
+  induction stops as [|b r IH]; intros a s; cbn [outer_from].
+  - split; [|reflexivity]. intros _ l1 x y l2 H. destruct l1 as [|z [|z' l1]]; discriminate.
+  - rewrite !app_nil_iff, !if_nil_iff, !Z.eqb_eq, (IH b (s + 1)). split.
+    + intros [H1 [H2 H3]] l1 x y l2 Heq. destruct l1 as [|z l1]; cbn [app] in Heq.
+      * injection Heq as <- <- _. split; assumption.
+      * injection Heq as _ Heq. apply (H3 l1 x y l2). exact Heq.
+    + intros H. destruct (H [] a b r eq_refl) as [G1 G2]. split; [exact G1|]. split; [exact G2|].
+      intros l1 x y l2 Heq. apply (H (a :: l1) x y l2). cbn [app]. rewrite Heq. reflexivity.
+Qed.
+
+Lemma outer_viol_nil P k t : outer_viol P k t = [] <-> LegsReplayed P t.
+Proof.
+  unfold outer_viol, LegsReplayed. destruct (to_stops t) as [|a r].
+  - split; [|reflexivity]. intros _. split; [intros st r0 H; discriminate|intros l1 x y l2 H; destruct l1; discriminate].
+  - rewrite app_nil_iff, if_nil_iff, Z.eqb_eq, outer_from_nil. split.
+    + intros [H1 H2]. split; [intros st r0 Heq; injection Heq as <- _; exact H1|exact H2].
+    + intros [H1 H2]. split; [apply (H1 a r eq_refl)|exact H2].
+Qed.
+
+(* ---- non-vacuity: three locations on a line, 10 apart (ex_P's matrix and vehicle); job 1 = delivery at location 1, job 3 = delivery
+        at location 2; clustering: visiting continue, parking 2, thresholds 10 / 10.  One clustered stop at location 1: parking
+        10 .. 12, job 1 12 .. 17, commute to location 2 17 .. 27, job 3 27 .. 32, commute back 32 .. 42, depot at 52 *)
+Definition ex_Pc : pproblem :=
+  mkPProblem [mkPJob 1 [mkPTask 1 [mkPPlace 1 5 [(NEGT, INF)] None] 1] true [] [] [] None None [] [];
+              mkPJob 3 [mkPTask 1 [mkPPlace 2 5 [(NEGT, INF)] None] 1] true [] [] [] None None [] []]
+             (pr_fleet ex_P) 3 (pr_dur ex_P) (pr_dist ex_P) [].
+Definition ex_Xc : xproblem := mkXProblem [] (Some (mkCCfg false 2 10 10 [])).
+Definition ex_stat_c : sstat := mkSStat 131 20 52 20 10 0 0.
+Definition ex_Sc : ssolution :=
+  mkSSolution ex_stat_c
+    [mkSTour 1 1 0 [mkSStop 0 0 0 2 0 [mkSAct (-1) 10 None None None];
+                    mkSStop 1 10 42 0 10 [mkSAct 1 1 (Some 1) (Some (12, 17)) None; mkSAct 3 1 (Some 2) (Some (27, 32)) None];
+                    mkSStop 0 52 52 0 20 [mkSAct (-1) 11 None None None]] ex_stat_c []]
+    [].
+Definition ex_XSc : xsolution :=
+  mkXSolution [mkXTour [None; Some (10, 12); None]
+                       [None; Some (None, None); Some (Some (mkCommute 1 10 17 27), Some (mkCommute 1 10 32 42)); None] 20 2] 20 2.
+(* job 3, a member of the cluster, is missing from the document (swallowed by the cluster) *)
+Definition ex_Sc_lost : ssolution :=
+  mkSSolution ex_stat_c
+    [mkSTour 1 1 0 [mkSStop 0 0 0 2 0 [mkSAct (-1) 10 None None None];
+                    mkSStop 1 10 42 0 10 [mkSAct 1 1 (Some 1) (Some (12, 17)) None];
+                    mkSStop 0 52 52 0 20 [mkSAct (-1) 11 None None None]] ex_stat_c []]
+    [].
+Definition ex_XSc_lost : xsolution := mkXSolution [mkXTour [None; Some (10, 12); None] [None; Some (None, None); None] 20 2] 20 2.
+(* the forward commute of job 3 claims to start at the depot *)
+Definition ex_XSc_bad : xsolution :=
+  mkXSolution [mkXTour [None; Some (10, 12); None]
+                       [None; Some (None, None); Some (Some (mkCommute 0 10 17 27), Some (mkCommute 1 10 32 42)); None] 20 2] 20 2.
+(* job 3 is excluded from clustering by the plan *)
+Definition ex_Xc_excl : xproblem := mkXProblem [] (Some (mkCCfg false 2 10 10 [3])).
+
+Lemma ex_cluster :
+  valid4 ex_Xc ex_XSc ex_Pc ex_Sc = []
+  /\ accounted4 ex_Xc ex_XSc_lost ex_Pc ex_Sc_lost = [AJobLost 3]
+  /\ replay4 ex_Xc ex_XSc_bad ex_Pc ex_Sc = [RCommute 0 2]
+  /\ accounted4 ex_Xc_excl ex_XSc ex_Pc ex_Sc = [AClusterMember 0 2]
+  /\ is_cluster_tour (xt_of ex_XSc 0) = true.
+Proof. repeat split; vm_compute; reflexivity. Qed.
